@@ -43,7 +43,7 @@ UNITS = {
     "hashlen": {"driver": "HashLen", "harness": "ops_hashlen", "gens": "hashlen",
                 "props": {"C01": ["CxVerif.Props.C20.HashLen"], "C20": ["CxVerif.Props.C20.HashLen"]}},
     "long": {"driver": "Long", "harness": "ops_long", "gens": "long", "props": {}},
-    "leak": {"driver": None, "harness": None, "gens": None, "props": {"C19": ["CxVerif.Props.C19.Leak", "CxVerif.Props.C19.LeakReal"]}},
+    "leak": {"driver": None, "harness": None, "gens": None, "props": {"C19": ["CxVerif.Props.C19.Leak", "CxVerif.Props.C19.LeakReal", "CxVerif.Props.C19.LeakHash"]}},
     "blake2": {"driver": "Blake2", "harness": "ops_blake2", "gens": "blake2",
                "props": {"C01": ["CxVerif.Props.C01.Blake2"], "C02": ["CxVerif.Props.C02.Blake2"], "C20": ["CxVerif.Props.C20.Blake2"]}},
     "fe64": {"driver": "Fe64", "harness": "ops_fe64", "gens": "fe64",
